@@ -231,6 +231,11 @@ class Model(object):
                     not self.P.tasks[name].get('with-items'):
                 for s2 in self._complete_subwf(s, iid):
                     self._dfs(s2)
+                if self._policy(name, 'timeout') and self.timeouts_may_win:
+                    # the timeout of the sub-workflow task may expire while
+                    # the child still runs
+                    for s2 in self._complete(s, iid, forced=ERROR):
+                        self._dfs(s2)
                 continue
             never = self._never_answers(s, name)
             to = self._policy(name, 'timeout')
